@@ -65,7 +65,10 @@ EXPLANATION = (
     "the offset's C type (uint8_t: 256) against (cur_bucket + offset) mod ring, a position carried from one loop "
     "iteration to the next by an induction step evaluated under the path's branch conditions; differences come with "
     "the concrete position/offset (R2, R3); tdma_schedule/tdma_schedule_set place items at "
-    "frame_offset + number of end-of-frame markers consumed (inductive check with a ghost counter), "
+    "frame_offset + number of end-of-frame markers consumed (inductive check with a ghost counter; the bucket is followed "
+    "through sched->bucket[index] or through a local pointer carried around the loop whose every value is &sched->bucket[index]; "
+    "an access path / invariant the induction does not recognise is an open structural record when the witness folds R8/R10/R11 "
+    "place every item in its frame), "
     "store the caller's parameters / the set entry with the caller's p3, store nothing for markers "
     "and leave at the end marker (R3); tdma_sched_execute runs the current bucket's items 0..n-1 of "
     "the sorted sequence with their own (p1,p2,p3) -- the loop's upper end is evaluated for every fill level "
@@ -2280,9 +2283,16 @@ def r3_set(a):
     groups = slot_groups(fn)
     (slot, sts), = groups.items()
     B = slot[1][1]
-    if not (B[0] == "idx" and B[1][0] == "fld" and B[1][2] == "bucket"):
-        raise AnalysisError("tdma_schedule_set(): item is not stored through sched->bucket[...] -- unclassifiable")
-    S, BN = B[1][1], B[2]
+    # the bucket the slot belongs to: sched->bucket[index], or a local pointer carried around the loop whose every
+    # value is &sched->bucket[index] (pointer-to-element alias, resolved leaf by leaf below); any other access path is a
+    # shape the induction does not cover -- the witness folds (R8, R10, R11) decide then, see the end of this function
+    S = BN = PB = shape = None
+    if B[0] == "idx" and B[1][0] == "fld" and B[1][2] == "bucket":
+        S, BN = B[1][1], B[2]
+    elif B[0] == "deref" and fn.is_phi(B[1]):
+        PB = B[1]
+    else:
+        shape = "item is not stored through sched->bucket[...] or a pointer to such an element (%s)" % show(B)
     if not fn.is_phi(IDX):
         raise AnalysisError("tdma_schedule_set(): entry position %s is not a loop variable -- unclassifiable" % show(IDX))
     h = phi_node(fn, IDX)
@@ -2342,7 +2352,32 @@ def r3_set(a):
         return rf is not None and rf[0] == "wrap" and rf[2] == a.NFR and rf[1] == X.add(p0, kv), "bucket index %s" % show(t)
     res = {"first": [], "marker": [], "item": []}
     evaluated = set()                     # failure texts that come with a concrete (ring position, offset): decided by value
-    if fn.is_phi(BN) and BN[3] == h.id:
+    if shape is not None:
+        pass
+    elif PB is not None:
+        # pointer-to-element alias: every value the pointer takes around the loop is itself (nothing consumed) or
+        # &S->bucket[t]; t is then judged like a bucket number recomputed at that point
+        lvs = fn.leaves([key_by_name(fn, PB[2]), K], h) if PB[3] == h.id else None
+        elems = lambda v: v[0] == "addr" and v[1][0] == "idx" and v[1][1][0] == "fld" and v[1][1][2] == "bucket"
+        odd = sorted({show(vals[0]) for (p, l, vals, inside) in lvs or [] if vals[0] != PB and not elems(vals[0])})
+        bases = {vals[0][1][1][1] for (p, l, vals, inside) in lvs or [] if vals[0] != PB and elems(vals[0])}
+        if lvs is None:
+            shape = "the bucket pointer %s is not carried around the loop over the set" % show(PB)
+        elif odd or len(bases) != 1:
+            shape = "the bucket pointer %s takes a value that is not the address of an element of one sched->bucket[] (%s)" % (
+                show(PB), "; ".join(odd) or "several rings")
+        else:
+            S = next(iter(bases))
+            try:
+                for (p, l, vals, inside) in lvs:
+                    v, kv = vals
+                    cls = "first" if not inside else ("item" if kv == Kh else "marker")
+                    res[cls].append((kv == Kh, "bucket pointer unchanged") if v == PB else placed(v[1][2], kv))
+            except AnalysisError as e:    # an element index the ring forms / the fold over the offset's domain cannot decide
+                res = {"first": [], "marker": [], "item": []}
+                shape = "the bucket pointer %s is re-pointed with an element index that is not decided (%s)" % (
+                    show(PB), str(e).replace(" -- unclassifiable", ""))
+    elif fn.is_phi(BN) and BN[3] == h.id:
         for (p, l, vals, inside) in fn.leaves([key_by_name(fn, BN[2]), K], h):
             v, kv = vals
             cls = "first" if not inside else ("item" if kv == Kh else "marker")
@@ -2372,7 +2407,7 @@ def r3_set(a):
     keytxt = {"first": "the first frame of a set is placed frame_offset frames after the current one",
               "marker": "after an end-of-frame marker (cb == NULL) the following items go exactly one frame later",
               "item": "storing an item does not move the frame the set is filling"}
-    if not res["marker"]:
+    if not res["marker"] and shape is None:
         res["marker"].append((False, "no path from the marker branch back to the loop"))
     # The placement above is an inductive invariant at the loop head -- sufficient, not necessary: code that keeps the
     # bucket number current only where an item is stored (looked up once per run of markers, ...) breaks the invariant
@@ -2390,6 +2425,8 @@ def r3_set(a):
             unproven.append("%s: %s" % (keytxt[cls], "; ".join(badt)))
             continue
         a.ob(R, name, keytxt[cls], want[cls], "; ".join(badt) if badt else want[cls], not badt, sts[0]["node"])
+    if shape is not None:
+        shape = "tdma_schedule_set(): %s -- unclassifiable" % shape
     # (c) nothing is stored for markers
     incs = [s for s in fn.stores if s["grp"] == "num_items"]
     for s in list(sts) + incs:
@@ -2409,10 +2446,22 @@ def r3_set(a):
     a.ob(R, name, "the end-of-set marker (cb == &tdma_end_set) leaves the loop without storing",
          "loop left", "loop continues" if h.id in reach else "loop left",
          h.id not in reach and not (reach & {s["node"].id for s in sts}), ce.ast)
-    if unproven:
-        raise AnalysisError("tdma_schedule_set(): the loop invariant `bucket = (cur_bucket + frame_offset + markers consumed) "
-                            "mod %d` is not established (%s) while the fold over witness sets finds every item in its frame "
-                            "-- the placement for all sets is unclassifiable" % (a.NFR, " | ".join(unproven)))
+    # The induction is the for-all-sets record of the placement; the alarm decision is the witness folds' (R8: 31 sets x 3
+    # points, R10: every ring position x offset, R11: full frames).  Where the folds ran and found every item in its frame,
+    # an access path / invariant the induction does not recognise leaves the record open and blocks nothing; where R8's
+    # fold could not be run (or disagrees: reported there) an unrecognised shape is `no verdict`.
+    def induction():
+        if shape is not None:
+            raise AnalysisError(shape)
+        for cls in ("first", "marker", "item"):
+            badt = sorted({t for (ok, t) in res[cls] if not ok})
+            a.ob(R, name, keytxt[cls], want[cls], "; ".join(badt) if badt else want[cls], not badt, sts[0]["node"])
+    if fold is not None and not any(fold.values()):
+        a.L.structural("C08.R3: tdma_schedule_set() keeps bucket == (cur_bucket + frame_offset + markers consumed) mod %d at "
+                       "the head of its loop -- placement of every set, by induction (alarm decision: folds R8/R10/R11)" % a.NFR,
+                       induction)
+    elif shape is not None:
+        raise AnalysisError(shape)
 
 
 
@@ -3160,6 +3209,15 @@ class NoVerdict(Exception):
     """The concrete evaluator met something outside its vocabulary (or undefined behaviour): no verdict."""
 
 
+class OutOfRange(NoVerdict):
+    """An element outside a concrete array was read or written (obj: the array).  No verdict in general; a driver that
+    owns the array (SchedWorld: the ring and its item arrays) judges it."""
+
+    def __init__(self, obj, key):
+        NoVerdict.__init__(self, "array index %s outside an array of %d elements" % (key, len(obj)))
+        self.obj, self.key = obj, key
+
+
 class _Undef:
     def __repr__(self):
         return "<uninitialised>"
@@ -3553,7 +3611,7 @@ class CEval:
         obj, key = lv
         try:
             if isinstance(obj, list) and not 0 <= key < len(obj):
-                raise NoVerdict("array index %d outside an array of %d elements" % (key, len(obj)))
+                raise OutOfRange(obj, key)
             return obj[key]
         except (KeyError, TypeError):
             raise NoVerdict("access to an unknown object")
@@ -3561,7 +3619,9 @@ class CEval:
     def put(self, lv, v):
         obj, key = lv
         if isinstance(obj, list):
-            if not isinstance(key, int) or not 0 <= key < len(obj):
+            if isinstance(key, int) and not 0 <= key < len(obj):
+                raise OutOfRange(obj, key)
+            if not isinstance(key, int):
                 raise NoVerdict("array index %s outside an array of %d elements" % (key, len(obj)))
         elif not isinstance(obj, dict) or key not in obj:
             raise NoVerdict("store to an unknown object")
@@ -4126,6 +4186,9 @@ def resolve(t, load):
             x, y = sub[1], sub[2]
             if (nonnull(x) and y == C0) or (nonnull(y) and x == C0) or (x[0] == "fn" and y[0] == "fn"):
                 return C0
+            if x[0] == "addr" and y[0] == "addr" and x[1][0] == "idx" and y[1][0] == "idx" and x[1][1] == y[1][1] \
+                    and x[1][2][0] == "c" and y[1][2][0] == "c":
+                return X.C(int(x[1][2][1] == y[1][2][1]))         # two elements of one array: same address iff same index
         return ("cmp",) + sub
     if k == "not":
         if nonnull(sub[0]):
@@ -4933,8 +4996,21 @@ class SchedWorld:
         self.ev.depth = 0
         try:
             return self.ev.call(name, args)
+        except OutOfRange as e:
+            # an access behind the end of the ring / of a bucket's item array, on concrete values: decided, not unknown
+            bk = self.sched["bucket"]
+            if e.obj is bk:
+                return ("oob", "bucket[%s] of the %d-bucket ring" % (e.key, len(bk)))
+            if any(e.obj is B["item"] for B in bk):
+                return ("oob", "item[%s] of a bucket's %d item slots" % (e.key, len(e.obj)))
+            raise
         except FOLD_ERRORS as e:
             raise NoVerdict("the evaluator met a construct it does not model (%s)" % type(e).__name__)
+
+    @staticmethod
+    def oob(rc):
+        return "the call accesses %s (memory outside the scheduler's arrays)" % rc[1] if isinstance(rc, tuple) and rc[:1] == ("oob",) \
+            else None
 
     def where(self, cb):
         """Slots (bucket, position below the fill count) that hold an item with this call-back."""
@@ -4968,6 +5044,8 @@ class SchedWorld:
         a = self.a
         cb = ("fn", "<call-back of the scheduled item>")
         rc = self.call("tdma_schedule", [off, cb, 11, 12, 1313, 5])
+        if self.oob(rc):
+            return self.oob(rc)
         want = (self.cur + off) % a.NFR
         bad = []
         if not isinstance(rc, int) or rc < 0:
@@ -5010,6 +5088,8 @@ class SchedWorld:
             count[b] += 1
             place[i] = b
         rc = self.call("tdma_schedule_set", [off, Ptr(entries, 0), 4242])
+        if self.oob(rc):
+            return self.oob(rc)
         bad = []
         if refused is not None:
             if not isinstance(rc, int) or rc >= 0:
